@@ -130,3 +130,59 @@ def finalize(k):
                 if acc.array == cur['E'] and f'{b} + 1' in acc.text and acc.verdict in ('PROVEN', 'ASSUMED'):
                     acc.verdict = 'UNKNOWN'
                     acc.detail = f'cursor invariant needs len({cur["E"]}) >= 2 at initialisation'
+
+
+# ---------------------------------------------------------------------------------------------
+# Reference set: (file, function, array, axis) triples whose accesses were all decided (PROVEN or
+# ASSUMED) on the reviewed tree.  An access to such an array that can no longer be decided is a
+# *lost proof* (a guard was removed, a bound changed) and is reported as a violation; an undecided
+# access to an array the analyser has never discharged is an analysis error (exit 2).
+import json as _json
+import os as _os
+
+_REF_PATH = _os.path.join(_os.path.dirname(_os.path.dirname(_os.path.abspath(__file__))), 'spec', 'bounds_reference.json')
+_ref_cache = None
+
+
+def reference():
+    global _ref_cache
+    if _ref_cache is None:
+        try:
+            with open(_REF_PATH) as f:
+                _ref_cache = {tuple(x) for x in _json.load(f)}
+        except OSError:
+            _ref_cache = set()
+    return _ref_cache
+
+
+def add_bounds_obligations(chk, rule, rel, q, contracts, k=None):
+    """Run the bounds prover on one kernel and register one obligation per (array, axis, index)."""
+    if k is None:
+        k = analyse(chk.src, rel, q, contracts)
+    ref = reference()
+    n = 0
+    for a in k.accesses.values():
+        verdict, detail = a.verdict, a.detail
+        if verdict == 'UNKNOWN' and (rel, q, a.array, a.axis) in ref:
+            verdict = 'REFUTED'
+            detail = (f'lost proof: accesses to {a.array} (axis {a.axis}) in {q} were all within bounds on the reviewed tree, '
+                      f'but {a.text} can no longer be shown to stay inside the array ({a.detail})')
+        chk.add(rule, rel, q, a.key, verdict, detail, line=a.line, witness=a.witness)
+        n += 1
+    return k, n
+
+
+def make_reference(src, files, contracts):
+    out = set()
+    for rel in files:
+        for q in kernel_names(src, rel):
+            k = analyse(src, rel, q, contracts)
+            per = {}
+            for a in k.accesses.values():
+                per.setdefault((a.array, a.axis), []).append(a.verdict)
+            for (arr, ax), vs in per.items():
+                if all(v in ('PROVEN', 'ASSUMED') for v in vs):
+                    out.add((rel, q, arr, ax))
+    with open(_REF_PATH, 'w') as f:
+        _json.dump(sorted(out), f, indent=0)
+    return out
